@@ -126,3 +126,73 @@ func c09MergeOverRefs() *core.Space {
 		},
 	}
 }
+
+// C09, interface-keyed maps whose keys overlap after dotted-path expansion (the alphabet of
+// newfrom-overlapping-keys, one and two entries), at the top level and nested below a string-keyed map.
+func c09IfaceOverlap() *core.Space {
+	keys := []string{"a", "b", "a.b", "a.c", "a.b.c", "a.0", "0"}
+	vals := []interface{}{"leaf", nil, M{"b": "vb"}, M{"c": "vc"}, M{"b": M{"c": "vbc"}}, L{"el"}, M{"b": nil, "d": "vd"}, map[interface{}]interface{}{"b": "vb", "b.c": nil}}
+	type entry struct {
+		k string
+		v int
+	}
+	var maps [][]entry
+	nk, nv := len(keys), len(vals)
+	for i := 0; i < nk; i++ {
+		for vi := 0; vi < nv; vi++ {
+			maps = append(maps, []entry{{keys[i], vi}})
+		}
+	}
+	for i := 0; i < nk; i++ {
+		for j := i + 1; j < nk; j++ {
+			for vi := 0; vi < nv; vi++ {
+				for vj := 0; vj < nv; vj++ {
+					maps = append(maps, []entry{{keys[i], vi}, {keys[j], vj}})
+				}
+			}
+		}
+	}
+	mk := func(es []entry) map[interface{}]interface{} {
+		m := map[interface{}]interface{}{}
+		for _, e := range es {
+			m[e.k] = vals[e.v]
+		}
+		return m
+	}
+	places := []string{"NewFrom(m)", "NewFrom({n: m})", "{a: 1}.Merge({n: m})"}
+	radices := []int{len(maps), len(places)}
+	return &core.Space{
+		Name: "interface-keyed-overlapping-keys",
+		Size: product(radices...),
+		Text: func(i int) string {
+			d := mixedRadix(i, radices...)
+			var parts []string
+			for _, e := range maps[d[0]] {
+				parts = append(parts, fmt.Sprintf("%q: %v", e.k, vals[e.v]))
+			}
+			return fmt.Sprintf("%s, PathSep(\".\") with m = map[interface{}]interface{}{%v}", places[d[1]], parts)
+		},
+		Exec: func(i int) core.Result {
+			d := mixedRadix(i, radices...)
+			sc := c09Scenario{Run: func() string {
+				m := mk(maps[d[0]])
+				var c *ucfg.Config
+				var err error
+				switch d[1] {
+				case 0:
+					c, err = ucfg.NewFrom(m, ucfg.PathSep("."))
+				case 1:
+					c, err = ucfg.NewFrom(M{"n": m}, ucfg.PathSep("."))
+				case 2:
+					c = mustCfg(M{"a": 1})
+					err = c.Merge(M{"n": m}, ucfg.PathSep("."))
+				}
+				if err != nil {
+					return "newfrom:" + errClass(err)
+				}
+				return observeConfig(c, ucfg.PathSep("."))
+			}}
+			return c09Explore(sc, 2, 3000)
+		},
+	}
+}
